@@ -52,6 +52,8 @@ pub enum EnumKind {
     BitFlips,
     Truncations,
     Counts,
+    /// self-consistent structural edits (wire::coordinated_fault), 16 variants per kind
+    Coordinated,
 }
 
 /// (base index, item index) for a global run index, by prefix sums over the bases
@@ -83,6 +85,7 @@ pub fn enum_sizes(kind: EnumKind, seed: u64, max_bases: usize) -> EnumIndex {
             .map(|b| match kind {
                 EnumKind::BitFlips => b.bytes().len() as u64 * 8,
                 EnumKind::Truncations => b.bytes().len() as u64,
+                EnumKind::Coordinated => (wire::COORDINATED_KINDS * 16) as u64,
                 EnumKind::Counts => b
                     .layout()
                     .fields
@@ -115,6 +118,10 @@ pub fn enum_mutation(kind: EnumKind, base: &dyn Base, item: u64) -> (String, Vec
             (format!("bit {bit} of byte {byte} flipped (field {f})"), out)
         },
         EnumKind::Truncations => (format!("truncated to {item} of {} bytes", bytes.len()), bytes[..item as usize].to_vec()),
+        EnumKind::Coordinated => match wire::coordinated_fault(bytes, base.layout(), (item / 16) as usize, (item % 16) as usize) {
+            Some(r) => r,
+            None => ("coordinated edit not applicable (unchanged bytes)".into(), bytes.to_vec()),
+        },
         EnumKind::Counts => {
             let mut i = item;
             for f in base.layout().fields.iter().filter(|f| f.kind == Kind::Count || f.kind == Kind::Tag) {
@@ -149,6 +156,7 @@ impl Arm for EnumArm {
             EnumKind::BitFlips => "all-bit-flips".into(),
             EnumKind::Truncations => "all-truncations".into(),
             EnumKind::Counts => "all-count-fields".into(),
+            EnumKind::Coordinated => "all-coordinated-edits".into(),
         }
     }
     fn runs(&self, tier: Tier, seed: u64) -> u64 {
@@ -168,6 +176,7 @@ impl Arm for EnumArm {
             EnumKind::BitFlips => "bit_flip",
             EnumKind::Truncations => "truncation_torn_write",
             EnumKind::Counts => "count_field_boundary_value",
+            EnumKind::Coordinated => "coordinated_self_consistent_edit",
         });
         danger_zone(ch);
         let d = base.deliver(&data, false, Inputs::Matching, 0, ch, ctx);
@@ -222,19 +231,58 @@ impl Arm for SampledArm {
     }
 }
 
+/// the sampled arm with fewer runs, served by the overflow-checking build
+struct SampledOvf;
+
+impl Arm for SampledOvf {
+    fn name(&self) -> String {
+        "sampled-faults".into()
+    }
+    fn runs(&self, tier: Tier, _seed: u64) -> u64 {
+        match tier {
+            Tier::Quick => 30_000,
+            Tier::Thorough => 600_000,
+        }
+    }
+    fn prepare(&self, tier: Tier, seed: u64) {
+        SampledArm.prepare(tier, seed)
+    }
+    fn run(&self, info: &RunInfo, ch: &mut Chooser, ctx: &mut Ctx) {
+        SampledArm.run(info, ch, ctx)
+    }
+}
+
 pub fn spec() -> CheckSpec {
     let iso = |a: Box<dyn Arm>| -> Box<dyn Arm> { Box::new(IsoArm { check_id: "C06", inner: a, timeout_s: 60, exe_env: None, alias: None }) };
     let arms: Vec<Box<dyn Arm>> = vec![
         iso(Box::new(EnumArm { kind: EnumKind::Counts, index: OnceLock::new(), quick_bases: usize::MAX })),
+        iso(Box::new(EnumArm { kind: EnumKind::Coordinated, index: OnceLock::new(), quick_bases: usize::MAX })),
         iso(Box::new(EnumArm { kind: EnumKind::Truncations, index: OnceLock::new(), quick_bases: usize::MAX })),
         iso(Box::new(EnumArm { kind: EnumKind::BitFlips, index: OnceLock::new(), quick_bases: 12 })),
         iso(Box::new(SampledArm)),
+        // the same inputs in the overflow-checking build: arithmetic overflow that release builds
+        // wrap silently shows up as a panic there
+        Box::new(IsoArm {
+            check_id: "C06",
+            inner: Box::new(EnumArm { kind: EnumKind::Counts, index: OnceLock::new(), quick_bases: usize::MAX }),
+            timeout_s: 60,
+            exe_env: Some("WFSIM_OVF"),
+            alias: Some("all-count-fields-overflow-checked"),
+        }),
+        Box::new(IsoArm {
+            check_id: "C06",
+            inner: Box::new(EnumArm { kind: EnumKind::Coordinated, index: OnceLock::new(), quick_bases: usize::MAX }),
+            timeout_s: 60,
+            exe_env: Some("WFSIM_OVF"),
+            alias: Some("all-coordinated-edits-overflow-checked"),
+        }),
+        Box::new(IsoArm { check_id: "C06", inner: Box::new(SampledOvf), timeout_s: 60, exe_env: Some("WFSIM_OVF"), alias: Some("sampled-faults-overflow-checked") }),
     ];
     CheckSpec {
         id: "C06",
         level: "fault_enumeration",
-        build: "serial",
-        rule: "bases = honest proofs of the protocol sim across every (field, hasher) pair, the three extensions and option / shape flavours (aux segment, wide trace, grinding), 0.5-4 KiB each. Enumerated completely per base: every length / count / size / tag field x {0, 1, 2, max/2, max/2+1, max-1, max, true+-1}; every truncation offset (torn write); every single-bit flip (quick: the first 12 bases, thorough: all). Sampled: byte overwrites, trailing garbage, removed / duplicated / swapped components with and without fixing counters and length prefixes, blob growth / shrinkage, splices of two proofs, random fields, random strings, pairs of faults; delivery by Proof::from_bytes or by Proof::read_from over ReadAdapter over a hostile-chunking simulated source; verification with matching or perturbed public inputs under three acceptance policies. Each case runs in an isolated worker with an allocation meter. Non-trivial = a fault fired (all runs); distinct = distinct event-log digests.".into(),
+        build: "serial (+ overflow-checking build for two arms)",
+        rule: "bases = honest proofs of the protocol sim across every (field, hasher) pair, the three extensions and option / shape flavours (aux segment, wide trace, grinding), 0.5-4 KiB each. Enumerated completely per base: every length / count / size / tag field x all 256 values (one-byte fields) or {0, 1, 2, max/2, max/2+1, max-1, max, true+-1} (wider fields); 8 kinds x 16 variants of self-consistent structural edits (OOD frame size with matching states, Lagrange frame supplied, one opened row more / fewer in every query set with num_unique_queries adjusted, one FRI query more / fewer, field modulus of another length, one commitment more / fewer, GKR proof of announced length, remainder of another size); every truncation offset (torn write); every single-bit flip (quick: the first 12 bases, thorough: all). Sampled: byte overwrites, trailing garbage, removed / duplicated / swapped components with and without fixing counters and length prefixes, blob growth / shrinkage, splices of two proofs, random fields, random strings, pairs of faults; delivery by Proof::from_bytes or by Proof::read_from over ReadAdapter over a hostile-chunking simulated source; verification with matching or perturbed public inputs under three acceptance policies. Each case runs in an isolated worker with an allocation meter. Non-trivial = a fault fired (all runs); distinct = distinct event-log digests.".into(),
         interleaving_measure: "distinct (base, fault, delivery mode, chunking) histories".into(),
         real: vec!["Proof / Context / TraceInfo / ProofOptions / Commitments / Queries / OodFrame / FriProof deserializers", "winter-verifier verify() incl. VerifierChannel, composer, FRI verifier, Merkle batch verification", "utils::ReadAdapter on the streamed deliveries"],
         stub: vec!["the byte source (SimRead)", "SimAir (the AIR handed to verify(); asserts nothing itself)"],
